@@ -53,7 +53,7 @@ class Context:
                 if a is None or n >= len(args):
                     iv = (None, None)
                     break
-                st = a.state_before(ce)
+                st = a.state_before_expr(ce)
                 if st is None:
                     continue       # unreachable call site
                 v = absint.wrap(a.eval(st, args[n]), p.get("it"))
